@@ -26,6 +26,8 @@ structure Rep where
   stashHead : Nat             -- harness protocol: head number in the directory kept by `stash`
   staleJoin : Bool            -- harness protocol: the rebuilding replica came back with that directory
   stashCkpt : String          -- harness protocol: the checkpoint recorded in the directory kept by `stash`
+  hasStash : Bool             -- harness protocol: a directory was kept by `stash`
+  recsUnknown : Bool          -- a replica rejoined with its own metadata below its checkpoint: recorded counters not tracked
   qDead   : Bool              -- harness protocol: the second healthy replica of the rebuild set-up was killed
   srcRev  : Nat               -- during a rebuild, after the swap: the source's revision counter
   rb      : Nat               -- rebuild phase of the harness protocol: 0 none, 1 begun, 2 reloaded, 4 mapped, 3 promoted
@@ -73,7 +75,7 @@ namespace Rep
 
 def init (bs nb : Nat) : Rep :=
   { dd := DD.init bs nb, names := [], recs := [], orphans := [], isOpen := true, mode := .init, rev := 1,
-    headN := 0, ckpt := "", rebuilding := false, maxChain := 0, stashHead := 0, staleJoin := false, stashCkpt := "", qDead := false, srcRev := 0, rb := 0 }
+    headN := 0, ckpt := "", rebuilding := false, maxChain := 0, stashHead := 0, staleJoin := false, stashCkpt := "", hasStash := false, recsUnknown := false, qDead := false, srcRev := 0, rb := 0 }
 
 /-- payload of `w off len tag` at absolute unit `u` -/
 def payload (off tag : Nat) (u : Nat) : Nat := tag * 1000000 + (u - off) + 1
@@ -175,17 +177,18 @@ def step (r : Rep) : RepOp → Rep × RepOut
     if !r.isOpen || r.mode ≠ .rw then (r, .refused) else ({ r with rev := n }, .ok)
   | .setCkpt s =>
     if !r.isOpen then (r, .refused) else ({ r with ckpt := s }, .ok)
-  | .stash => if r.isOpen || r.rb ≠ 0 then (r, .refused) else ({ r with stashHead := r.headN, stashCkpt := r.ckpt }, .ok)
+  | .stash => if r.isOpen || r.rb ≠ 0 then (r, .refused) else ({ r with stashHead := r.headN, stashCkpt := r.ckpt, hasStash := true }, .ok)
   | .rbBegin n stale =>
     if !r.isOpen || r.rb ≠ 0 || r.mode ≠ .rw || r.indexOf n ≠ 0 || r.orphans.contains n then (r, .refused) else
     -- a replica that comes back with its old directory is synced only if the checkpoint recorded there
     -- is still a member of the source's chain (sync.isRevisionCountAndChainSame refuses it otherwise and
     -- nothing is promoted): the harness never lets such a replica rejoin
+    if stale && !r.hasStash then (r, .inadmissible) else
     if stale && r.stashCkpt ≠ "" && !(r.names.any fun x => "volume-snap-" ++ x ++ ".img" = r.stashCkpt) then (r, .inadmissible) else
     -- Controller.Start opens the (closed) replica with preload and makes it RW; AddReplica then takes
     -- the automatic snapshot on every replica
     ({ r with dd := (r.dd.reopen true).snapshot false, names := r.names ++ [n], recs := r.bumpRecs ++ [r.rev],
-              headN := r.headN + 1, rb := 1, qDead := false, staleJoin := stale }, .ok)
+              headN := r.headN + 1, rb := 1, qDead := false, staleJoin := stale, recsUnknown := r.recsUnknown || stale }, .ok)
   | .rbReload =>
     if r.rb ≠ 1 || !r.isOpen then (r, .refused) else
     -- from here on the replica under test is the rebuilt one: the source's snapshot files, its own
